@@ -1,23 +1,29 @@
 #!/bin/bash
-# Support tool (not a registered check): which lines of /repo/src do the quick tiers of all checks drive?
-# Builds a coverage-instrumented harness with the nightly toolchain in /tmp/verif-cov, runs every quick check
-# against it, and writes notes/coverage.txt (per-file line coverage) and notes/coverage-uncovered.txt
-# (functions of the anchored files never entered). Evidence files are restored afterwards.
+# Support tool (not a registered check): which lines of the repo's src/ do the checks drive?
+#   tools/coverage.sh [tier] [PID ...]        (default: quick, all 20 properties)
+# Builds a coverage-instrumented harness with the nightly toolchain in a scratch directory ($VERIF_COV, default
+# /tmp/verif-cov-<name of the verif directory's parent>), runs the checks against it and writes
+# notes/coverage.txt (per-file line coverage) and notes/coverage-uncovered.txt (uncovered line ranges of the
+# files the properties are anchored in). Evidence files are restored afterwards.
 set -u
-TIER=${1:-quick}
-COV=/tmp/verif-cov
+V=$(cd $(dirname $0)/.. && pwd)
+TIER=${1:-quick}; shift
+PIDS=${@:-$(seq -f 'C%02g' 1 20)}
+COV=${VERIF_COV:-/tmp/verif-cov-$(basename $(dirname $V))}
 BIN=$(dirname $(rustup which --toolchain nightly rustc))/../lib/rustlib/x86_64-unknown-linux-gnu/bin
 mkdir -p $COV/prof; rm -f $COV/prof/*
-cd /verif/harness
-RUSTFLAGS="-C instrument-coverage --cfg litep2p_verif -Awarnings" CARGO_TARGET_DIR=$COV/target CARGO_NET_OFFLINE=true \
-  cargo +nightly build --offline 2>&1 | tail -1
-cd /verif
-for i in $(seq -w 1 20); do
-  VERIF_HARNESS_BIN=$COV/target/debug/harness LLVM_PROFILE_FILE=$COV/prof/%m-%p.profraw ./verif.py check C$i --tier $TIER 2>&1 | tail -1 | cut -c1-120
+cd $V/harness
+LLVM_PROFILE_FILE=$COV/build-%p.profraw RUSTFLAGS="-C instrument-coverage --cfg litep2p_verif -Awarnings" \
+  CARGO_TARGET_DIR=$COV/target CARGO_NET_OFFLINE=true cargo +nightly build --offline 2>&1 | tail -1
+cd $V
+for p in $PIDS; do
+  VERIF_HARNESS_BIN=$COV/target/debug/harness LLVM_PROFILE_FILE=$COV/prof/%m-%p.profraw ./verif.py check $p --tier $TIER 2>&1 | tail -1 | cut -c1-120
 done
 git checkout -- evidence
 $BIN/llvm-profdata merge -sparse $COV/prof/*.profraw -o $COV/all.profdata
-$BIN/llvm-cov report $COV/target/debug/harness -instr-profile=$COV/all.profdata --ignore-filename-regex='(\.cargo|rustc|/verif/|src/verif/)' > notes/coverage.txt
-$BIN/llvm-cov export $COV/target/debug/harness -instr-profile=$COV/all.profdata --ignore-filename-regex='(\.cargo|rustc|/verif/|src/verif/)' -format=lcov > $COV/all.lcov
+IGN='(\.cargo|rustc|/verif/|src/verif/|/target/)'
+$BIN/llvm-cov report $COV/target/debug/harness -instr-profile=$COV/all.profdata --ignore-filename-regex="$IGN" > notes/coverage.txt
+$BIN/llvm-cov export $COV/target/debug/harness -instr-profile=$COV/all.profdata --ignore-filename-regex="$IGN" -format=lcov > $COV/all.lcov
 python3 tools/coverage_report.py $COV/all.lcov > notes/coverage-uncovered.txt
-rm -f $COV/prof/*
+rm -f $COV/prof/* $COV/build-*.profraw
+echo "wrote notes/coverage.txt notes/coverage-uncovered.txt (scratch: $COV — remove it when done)"
